@@ -255,6 +255,46 @@ fn curve_eval(path: &crate::scene::PathSpec, tol: f32, q: Option<(f32, f32)>) ->
     if cur.len() >= 2 {
         polys.push(cur);
     }
+    // the true outline (every curve finely sampled from the model cursor, independent of
+    // Path::flatten): points farther from it than the flattening deviation are decided by it
+    let true_polys: Vec<Vec<(f64, f64)>> = {
+        let ops = super::c04::model_flatten(&built.ops, 100.0);
+        let mut polys: Vec<Vec<(f64, f64)>> = Vec::new();
+        let mut cur: Vec<(f64, f64)> = Vec::new();
+        let mut start: Option<(f64, f64)> = None;
+        for op in &ops {
+            match *op {
+                PathOp::MoveTo(p) => {
+                    if cur.len() >= 2 {
+                        polys.push(std::mem::take(&mut cur));
+                    }
+                    cur.clear();
+                    cur.push((p.x as f64, p.y as f64));
+                    start = Some((p.x as f64, p.y as f64));
+                }
+                PathOp::LineTo(p) => {
+                    if cur.is_empty() {
+                        start = Some((p.x as f64, p.y as f64));
+                    }
+                    cur.push((p.x as f64, p.y as f64));
+                }
+                PathOp::Close => {
+                    if cur.len() >= 2 {
+                        polys.push(std::mem::take(&mut cur));
+                    }
+                    cur.clear();
+                    if let Some(s) = start {
+                        cur.push(s);
+                    }
+                }
+                _ => {}
+            }
+        }
+        if cur.len() >= 2 {
+            polys.push(cur);
+        }
+        polys
+    };
     let check = |x: f32, y: f32, want: bool, clause: &str| -> Result<(), Violation> {
         let got = guard(|| built.contains_point(tol, x, y)).map_err(|p| Violation::new("contains_point/panic", format!("{} q={:?},{:?}", case0, x, y), p))?;
         if got != want {
@@ -271,6 +311,11 @@ fn curve_eval(path: &crate::scene::PathSpec, tol: f32, q: Option<(f32, f32)>) ->
             let w = winding_polylines((x as f64, y as f64), &polys);
             let inside = if path.evenodd { w & 1 != 0 } else { w != 0 };
             check(x, y, inside, if inside { "inside-point-reported-outside" } else { "outside-point-reported-inside" })?;
+        }
+        if !on_vertex && dist_outline((x as f64, y as f64), &true_polys) > 8.0 * tol as f64 + 0.02 {
+            let wt = winding_polylines((x as f64, y as f64), &true_polys);
+            let inside_t = if path.evenodd { wt & 1 != 0 } else { wt != 0 };
+            check(x, y, inside_t, if inside_t { "point-inside-the-true-outline-reported-outside" } else { "point-outside-the-true-outline-reported-inside" })?;
         }
         return Ok((0, 0));
     }
@@ -295,6 +340,11 @@ fn curve_eval(path: &crate::scene::PathSpec, tol: f32, q: Option<(f32, f32)>) ->
                 h = h.rotate_left(5) ^ ((gy * 64 + gx) as u64);
             }
             check(x, y, inside, if inside { "inside-point-reported-outside" } else { "outside-point-reported-inside" })?;
+            if dist_outline((x as f64, y as f64), &true_polys) > 8.0 * tol as f64 + 0.02 {
+                let wt = winding_polylines((x as f64, y as f64), &true_polys);
+                let inside_t = if path.evenodd { wt & 1 != 0 } else { wt != 0 };
+                check(x, y, inside_t, if inside_t { "point-inside-the-true-outline-reported-outside" } else { "point-outside-the-true-outline-reported-inside" })?;
+            }
         }
     }
     Ok((h ^ nv, nv + ng))
@@ -430,7 +480,14 @@ impl Check for C17 {
                     return;
                 }
                 for c in &pts {
-                    let mut paths = vec![PathSpec::new(vec![POp::M(a.0, a.1), POp::Q(b.0, b.1, c.0, c.1)]), PathSpec::new(vec![POp::M(a.0, a.1), POp::Q(b.0, b.1, c.0, c.1), POp::Z, POp::L(6.0, 6.5), POp::L(2.0, 7.0)])];
+                    let mut paths = vec![
+                        PathSpec::new(vec![POp::M(a.0, a.1), POp::Q(b.0, b.1, c.0, c.1)]),
+                        PathSpec::new(vec![POp::M(a.0, a.1), POp::Q(b.0, b.1, c.0, c.1), POp::Z, POp::L(6.0, 6.5), POp::L(2.0, 7.0)]),
+                        // no MoveTo at all: the subpath starts at the first LineTo, and a curve right
+                        // after Close starts there again
+                        PathSpec::new(vec![POp::L(a.0, a.1), POp::L(b.0, b.1), POp::Z, POp::Q(c.0, c.1, 6.0, 6.5)]),
+                        PathSpec::new(vec![POp::Q(a.0, a.1, b.0, b.1), POp::L(c.0, c.1), POp::Z, POp::C(2.0, 7.0, 9.0, 8.0, 6.0, 6.5)]),
+                    ];
                     for d in pts.iter().take(if q { 2 } else { 6 }) {
                         paths.push(PathSpec::new(vec![POp::M(a.0, a.1), POp::C(b.0, b.1, c.0, c.1, d.0, d.1)]));
                     }
